@@ -8,11 +8,10 @@ IMPORTS = ("From Coq Require Import List Ascii String NArith ZArith Bool.\n"
            "From Galaxy.Base Require Import Strs.\nFrom Galaxy.Model Require Import Nets IpInfoCodec.\n"
            "From Galaxy.Corr Require Import CorrBase C13c.\n")
 
-THEOREMS = []
-THEOREMS_LATER = ["ipinfos_end_to_end", "no_ipinfos_nothing_configured", "annotation_scanned", "enc_no_semicolon",
-            "enc_no_outer_space", "ipinfos_key_no_equals", "json_print_parse"]
+THEOREMS = ["ipinfos_end_to_end", "no_ipinfos_nothing_configured", "annotation_scanned", "enc_no_semicolon",
+            "enc_no_outer_space", "ipinfos_key_no_equals", "json_print_parse", "decode_encode"]
 REFUTED = []
-DEPS = ["Strs", "Nets", "NetsP", "Keys", "KeysP", "Page", "IpInfoCodec", "CorrBase", "C13c", "C13"]
+DEPS = ["Strs", "Nets", "NetsP", "Keys", "KeysP", "Page", "PageP", "IpInfoCodec", "IpInfoCodecP", "CorrBase", "C13c", "C13"]
 
 KNOWN_FINDINGS = []
 
